@@ -54,20 +54,21 @@ impl<BS: cipher::crypto_common::BlockSizes> cipher::BlockModeEncClosure for Inpl
     fn call<B: cipher::BlockModeEncBackend<BlockSize = BS>>(self, backend: &mut B) {
         use cipher::typenum::Unsigned;
         let w = B::ParBlocksSize::USIZE;
-        let mut rest = self.blocks;
-        if let Some((first, r)) = rest.split_first_mut() {
-            backend.encrypt_block_inplace(first);
-            rest = r;
+        let blocks = self.blocks;
+        let n = blocks.len();
+        let mut i = 0;
+        if n > 0 {
+            backend.encrypt_block_inplace(&mut blocks[0]);
+            i = 1;
         }
-        if w > 1 && rest.len() >= w {
-            let (g, r) = rest.split_at_mut(w);
-            backend.encrypt_par_blocks_inplace(<&mut Array<Array<u8, BS>, B::ParBlocksSize>>::try_from(g).unwrap());
-            rest = r;
+        if w > 1 && n - i >= w {
+            backend.encrypt_par_blocks_inplace(<&mut Array<Array<u8, BS>, B::ParBlocksSize>>::try_from(&mut blocks[i..i + w]).unwrap());
+            i += w;
         }
-        if rest.len() < w {
-            backend.encrypt_tail_blocks_inplace(rest);
+        if n - i < w {
+            backend.encrypt_tail_blocks_inplace(&mut blocks[i..]);
         } else {
-            for b in rest.iter_mut() {
+            for b in blocks[i..].iter_mut() {
                 backend.encrypt_block_inplace(b);
             }
         }
@@ -83,20 +84,21 @@ impl<BS: cipher::crypto_common::BlockSizes> cipher::BlockModeDecClosure for Inpl
     fn call<B: cipher::BlockModeDecBackend<BlockSize = BS>>(self, backend: &mut B) {
         use cipher::typenum::Unsigned;
         let w = B::ParBlocksSize::USIZE;
-        let mut rest = self.blocks;
-        if let Some((first, r)) = rest.split_first_mut() {
-            backend.decrypt_block_inplace(first);
-            rest = r;
+        let blocks = self.blocks;
+        let n = blocks.len();
+        let mut i = 0;
+        if n > 0 {
+            backend.decrypt_block_inplace(&mut blocks[0]);
+            i = 1;
         }
-        if w > 1 && rest.len() >= w {
-            let (g, r) = rest.split_at_mut(w);
-            backend.decrypt_par_blocks_inplace(<&mut Array<Array<u8, BS>, B::ParBlocksSize>>::try_from(g).unwrap());
-            rest = r;
+        if w > 1 && n - i >= w {
+            backend.decrypt_par_blocks_inplace(<&mut Array<Array<u8, BS>, B::ParBlocksSize>>::try_from(&mut blocks[i..i + w]).unwrap());
+            i += w;
         }
-        if rest.len() < w {
-            backend.decrypt_tail_blocks_inplace(rest);
+        if n - i < w {
+            backend.decrypt_tail_blocks_inplace(&mut blocks[i..]);
         } else {
-            for b in rest.iter_mut() {
+            for b in blocks[i..].iter_mut() {
                 backend.decrypt_block_inplace(b);
             }
         }
